@@ -277,7 +277,13 @@ def run(tier):
                 sample = {"lag": p, "delivered": cont}
     bound = 2
     st = explore.explore(Race("line"), race_params(tier), bound)
+    ix = None
+    if tier != "quick":
+        ix = explore.extra(st, explore.hybrid(Race("instr")), [dict(p, bound=2.015) for p in race_params(tier)[:3]],
+                           2.015, 900, "publisher races at instruction granularity, two preemptions of which at most one inside a source line")
     fill(res, st, bound, "line")
+    if ix:
+        res.coverage["instruction_extra"] = ix
     cov = res.coverage
     cov["lag_part"] = {"publish_sequences": n_lag, "max_length": N, "distinct_delivery_patterns": len(distinct)}
     cov["states"] = len(distinct) + max(1, len(st.fps))
